@@ -352,6 +352,33 @@ def build() -> Check:
           "checkpoint requested afterwards is enqueued for nobody and its caller waits for ever")
     ck.ob("R6.stop-releases-queued-waiters", c_cbf, {"_checkpoint_queue", "_overflow_queue"} <= drained,
           f"when the consumer leaves its loop because it was told to stop it drains {sorted(drained) or 'no queue'}: a synchronous caller already queued is never released")
+    # ... released WITH the stop marker: every item taken off a queue there has its completion event set with an error (set() without one would tell the
+    # caller its record was accepted; no set() at all leaves it blocked for ever)
+    par6 = {}
+    for st_ in after6:
+        for n_ in ast.walk(st_):
+            for c_ in ast.iter_child_nodes(n_):
+                par6[id(c_)] = n_
+    n_taken = 0
+    unreleased = []
+    for st_ in after6:
+        for asg in ast.walk(st_):
+            if isinstance(asg, ast.Assign) and isinstance(asg.value, ast.Call) and isinstance(asg.value.func, ast.Attribute) and asg.value.func.attr in ("get_nowait", "get") \
+                    and isinstance(asg.targets[0], ast.Name):
+                n_taken += 1
+                item_ = asg.targets[0].id
+                cur = par6.get(id(asg))
+                while cur is not None and not isinstance(cur, (ast.While, ast.For)):
+                    cur = par6.get(id(cur))
+                scope = cur if cur is not None else st_
+                sets6 = [c for c in ast.walk(scope) if isinstance(c, ast.Call) and isinstance(c.func, ast.Attribute) and c.func.attr == "set"
+                         and ast.unparse(c.func.value) == f"{item_}.completion_event"]
+                if not sets6 or not all(c.args or c.keywords for c in sets6):
+                    unreleased.append(f"line {asg.lineno}: `{ast.unparse(asg)}`")
+    ck.floor("stop_path_items_taken", n_taken, 1)
+    ck.ob("R6.stop-releases-queued-waiters", c_cbf, not unreleased,
+          "; ".join(unreleased) + ": an item taken off a queue after the consumer was told to stop is not released with the stop marker (its completion event is not set, "
+          "or set without an error): the synchronous caller behind it blocks for ever, or believes its record was accepted", cell="with the marker")
     # R5 the last hop: LambdaClient hands the batch to the service API. The batcher rules above end at `self._service_client.checkpoint(...)`; what the client
     # does with its arguments is the same clause (nothing lost, duplicated or reordered; the token of the previous response is presented): every argument of
     # the API call is the corresponding parameter itself, `Updates` is one wire dictionary per update in the order given, and the response is decoded whole.
